@@ -16,6 +16,7 @@ import (
 	"time"
 
 	"verif/h/fw"
+	"verif/h/node"
 
 	"com.tuntun.rangers/node/src/common"
 	"com.tuntun.rangers/node/src/core"
@@ -472,19 +473,19 @@ func sideRows() map[string][3]uint64 {
 // capturePristine is called once right after node.Boot.  It records the post-boot image
 // and checks that the full reset (wipe + first-boot initialisation) reproduces it.
 func capturePristine() error {
-	gc := core.GetGroupChain()
-	n := gc.Count()
-	if n == 0 {
-		return fmt.Errorf("no genesis group after boot")
-	}
+	// the model's genesis elements come from the consensus side (the same source the
+	// chain initialisation uses), not from the chain under test
 	genesisList = nil
-	for i := uint64(0); i < n; i++ {
-		g := gc.GetGroupByHeight(i)
-		if g == nil {
-			return fmt.Errorf("genesis group %d missing after boot", i)
-		}
+	for i, gi := range (node.Stub{}).GenerateGenesisInfo() {
+		g := cloneGroup(&gi.Group)
+		g.GroupHeight = uint64(i)
 		genesisList = append(genesisList, g)
 	}
+	if len(genesisList) == 0 {
+		return fmt.Errorf("no genesis group")
+	}
+	gc := core.GetGroupChain()
+	n := gc.Count()
 	pristineState = implState()
 	pristineKV = map[string][]byte{}
 	keys, vals := storeKeys()
